@@ -746,8 +746,10 @@ http_prepare(nng_http *conn, void **data, size_t *szp)
 	len = http_snprintf(conn, NULL, 0);
 
 	// If it fits in the fixed buffer, use it. It should cover
-	// like 99% or more cases, as this buffer is 8KB.
-	if (len < conn->bufsz) {
+	// like 99% or more cases, as this buffer is 8KB.  The buffer is
+	// also the read buffer, so it is only free for this if no received
+	// data (e.g. the next pipelined request) is waiting in it.
+	if ((len < conn->bufsz) && (conn->rd_get == conn->rd_put)) {
 		http_snprintf(conn, (char *) conn->buf, conn->bufsz);
 		*data = conn->buf;
 		*szp  = len;
